@@ -3,7 +3,8 @@
    harness/src/engines/iostate.rs: the read buffer and the fixed-length frame codec, the open/closed
    state of the io object, the gated request handlers with the response re-sequencing queue (the
    algorithm of Model/RespQueue.v, here with error kinds and queue positions instead of wrapping
-   indices), the gated control service, the gated service shutdown, and the `stopping` condition.
+   indices), the gated control service, the gated service shutdown, the `stopping` condition, and the
+   write side (write buffer, a peer that accepts nothing or everything, DSP_W_BACKPRESSURE at 1024 bytes).
    [poll_disp] replays Dispatcher::poll: one [io_step] per iteration of its loop, with the answers the
    environment gives at that moment.  See the harness file for the case syntax. Definitions only. *)
 From MV Require Import Base.Prelude Base.Res Model.IoState Model.Timer.
